@@ -63,6 +63,8 @@ def scenarios(tier, seed):
     n = 2 if tier == 'quick' else 8
     for k in range(n):
         out.append(gen_scenario.write(os.path.join(d, f'gen_{seed}_{k}'), seed * 1009 + k))
+    for k in range(1 if tier == 'quick' else 4):
+        out.append(gen_scenario.write_queue_ties(os.path.join(d, f'ties_{seed}_{k}'), seed * 2003 + k))
     return out
 
 def engine(res, spec, tier, seed, extended=False):
@@ -114,6 +116,9 @@ def replayer(payload):
         if base.startswith('gen_'):
             _, sd, k = base.split('_')
             gen_scenario.write(os.path.dirname(sc), int(sd) * 1009 + int(k))
+        if base.startswith('ties_'):
+            _, sd, k = base.split('_')
+            gen_scenario.write_queue_ties(os.path.dirname(sc), int(sd) * 2003 + int(k))
     ra, rb = run_one((sc, sa, steps, []))[2], run_one((sc, sb, steps, []))[2]
     if not ra or not rb:
         print('scenario could not be run'); return None
